@@ -2,7 +2,7 @@
 (* Bounded model checking of the B-tree model for an order M: C01 refinement *)
 (* of AbsMap, C02 sorted walk / LeftKey / RightKey / Get, C07 shape (fill,   *)
 (* children, leaf depth, Height()) and work bound, C15 cached size.           *)
-EXTENDS BT, AbsMap, Shape
+EXTENDS BT, AbsMap, Shape, Json
 cfgT == [sorted |-> TRUE, cmp |-> "nat", linked |-> FALSE, bidi |-> FALSE, vsorted |-> FALSE, vcmp |-> "nat"]
 Ent(t) == InOrder(t, t.root)
 Refines ==
@@ -28,4 +28,7 @@ Flat(t) == LET ord == Pre(t, t.root)
                                      p |-> ix(t.n[ord[i]].parent)]]
 ShapeInv == BTShapeOK(Flat(T), M, HeightOf(T, T.root))
 WorkBound == [][ last'.op \in {"Get", "Put", "Remove"} => WorkOK("bt", M, last'.n, last'.cmps) ]_vars
+RECURSIVE CanonK(_, _)
+CanonK(t, x) == IF x = Nil THEN <<>> ELSE <<[j \in DOMAIN E(t, x) |-> E(t, x)[j][1]], [i \in 1..Len(C(t, x)) |-> CanonK(t, C(t, x)[i])]>>
+Fid == PrintT("S|" \o ToJson(CanonK(T, T.root)))
 =============================================================================
